@@ -350,6 +350,81 @@ def run(ctx, report):
                     R7.violation(inst, 'shared-table:%s:%s:%s' % (fn.name, u(tgt), what), '%s mutates the module-level object %s in place (%s)' % (fn.name, u(tgt), what), where(m, n))
             if not bad:
                 R7.ok(inst, nontrivial=(len(R7.nontrivial) < 400))
+    # ---------------------------------------------------------------- D8 process-wide loggers are configured once
+    R8 = report.rule('C12.D8', 'no function configures a process-wide logger (addHandler / setLevel on logging.getLogger(name)) on every call', floor=1)
+    n_sites = 0
+    for m in mods:
+        for cname, fn in all_functions(m):
+            named = set()
+            for n in walk_no_nested(fn):
+                if isinstance(n, ast.Assign) and len(n.targets) == 1 and isinstance(n.targets[0], ast.Name) and isinstance(n.value, ast.Call) \
+                        and u(n.value.func) in ('logging.getLogger', 'getLogger') and n.value.args:
+                    named.add(n.targets[0].id)
+            if not named:
+                continue
+            for n in walk_no_nested(fn):
+                if isinstance(n, ast.Call) and isinstance(n.func, ast.Attribute) and n.func.attr in ('addHandler', 'setLevel') and isinstance(n.func.value, ast.Name) \
+                        and n.func.value.id in named:
+                    n_sites += 1
+                    guarded = False
+                    p_ = parent(n)
+                    while p_ is not None and p_ is not fn:
+                        if isinstance(p_, ast.If) and ('%s.handlers' % n.func.value.id) in u(p_.test):
+                            guarded = True
+                        p_ = parent(p_)
+                    inst = '%s::%s%s:%s' % (m.name, (cname + '.') if cname else '', fn.name, norm(n))
+                    if guarded:
+                        R8.ok(inst, sample='%s: only when the logger has no handler yet' % inst)
+                    else:
+                        R8.violation(inst, 'logger-config:%s:%s' % (fn.name, n.func.attr), '%s%s calls %s on the process-wide logger on every call: each new instance adds a handler '
+                                     '(records of every other instance are then written once more) or resets the level the application chose'
+                                     % ((cname + '.') if cname else '', fn.name, norm(n)), where(m, n), witness='after eval_abs({}) x 11, one warning of the first machine is printed 11 times')
+    if n_sites == 0:
+        R8.ok('no function configures a named logger', sample='logger configuration happens at import time only')
+
+
+    # ---------------------------------------------------------------- D9 state a token rule keeps on a shared lexer is reset per parse
+    R9 = report.rule('C12.D9', 'an attribute a token rule updates on a module-level PLY lexer is reset by every function that parses with that lexer', floor=2)
+    for mname in ('parse_ad', 'ia32_att'):
+        m = ctx.mod(mname)
+        lexers = set()
+        for st in m.tree.body:
+            if isinstance(st, ast.Assign) and len(st.targets) == 1 and isinstance(st.targets[0], ast.Name) and isinstance(st.value, ast.Call) and u(st.value.func) in ('lex.lex', 'lex'):
+                lexers.add(st.targets[0].id)
+        if not lexers:
+            raise AnalysisError('%s: no module-level lexer (lex.lex()) found' % mname)
+        kept = {}
+        for fname, fn in m.funcs.items():
+            if not fname.startswith('t_') or not fn.args.args:
+                continue
+            tok = fn.args.args[0].arg
+            for n in ast.walk(fn):
+                tg = n.target if isinstance(n, ast.AugAssign) else (n.targets[0] if isinstance(n, ast.Assign) and len(n.targets) == 1 else None)
+                if isinstance(tg, ast.Attribute) and u(tg.value) == '%s.lexer' % tok:
+                    kept.setdefault(tg.attr, fname)
+        entries = []
+        for fname, fn in m.funcs.items():
+            for n in walk_no_nested(fn):
+                if isinstance(n, ast.Call) and isinstance(n.func, ast.Attribute) and n.func.attr == 'parse':
+                    lx = [k_.value.id for k_ in n.keywords if k_.arg == 'lexer' and isinstance(k_.value, ast.Name)]
+                    if lx and lx[0] in lexers:
+                        entries.append((fname, fn, n, lx[0]))
+        if not entries:
+            raise AnalysisError('%s: no function parses with the module-level lexer' % mname)
+        for fname, fn, call, lx in entries:
+            for attr, rule_fn in sorted(kept.items()):
+                inst = '%s::%s: %s.%s' % (mname, fname, lx, attr)
+                reset = [st for st in fn.body if isinstance(st, ast.Assign) and len(st.targets) == 1 and u(st.targets[0]) == '%s.%s' % (lx, attr)
+                         and isinstance(st.value, ast.Constant) and st.lineno < call.lineno]
+                if reset:
+                    R9.ok(inst, sample='%s resets %s.%s before parsing' % (fname, lx, attr))
+                else:
+                    R9.violation(inst, 'lexer-state:%s:%s:%s' % (mname, fname, attr), '%s updates %s on the lexer it is given; %s parses every line with the module-level lexer %s and '
+                                 'never resets it (PLY\'s input() does not): the positions in the error of a later call depend on the lines parsed before'
+                                 % (rule_fn, attr, fname, lx), where(m, call), witness="asm('mov eax eax') fails with LexToken(REGISTER,'eax',1,5), after a line holding two newlines with (..,3,5)")
+            if not kept:
+                R9.ok('%s::%s' % (mname, fname), sample='no token rule keeps state on the lexer')
+
 
 def _chain(node, fn):
     """[(holder statement, field, index)] from the function body down to the statement containing `node`."""
@@ -402,4 +477,7 @@ MUTANTS = [
     ('evalid-flag', 'miasmx/expression/expression_eval_abstract.py', '        if not e in self.pool:\n            return e\n        return self.pool[e]\n',
      '        if not e in self.pool:\n            e.is_term = True\n            return e\n        return self.pool[e]\n', 'C12.D1'),
     ('merge-nocopy', 'miasmx/expression/expression_helper.py', '            sources_int[a[1]] = (ExprInt(a[0].arg.__class__(a[0].arg)),\n', '            sources_int[a[1]] = (a[0],\n', 'C12.D3'),
+    ('logger-every-call', 'miasmx/expression/expression_eval_abstract.py', "            if not log.handlers:\n                # the logger is shared by every machine: configure it once\n", "            if True:\n", 'C12.D8'),
+    ('intel-lexer-lineno-kept', 'miasmx/core/parse_ad.py', "    lexer_intel.lineno = 1\n", "", 'C12.D9'),
+    ('att-lexer-lineno-kept', 'miasmx/arch/ia32_att.py', "    lexer_att.lineno = 1\n", "", 'C12.D9'),
 ]
